@@ -151,6 +151,17 @@ def oracle(tr):
                 bad.append((None, "step %d: start failed (%s): waiter %s with %d message(s) of serial %s waiting got %d errors" % (i, ",".join(failed), sname, k, ser, len(errs))))
             else:
                 stats["failed_waiters"] += k
+        # nobody else hears of a failed start: in a step in which no client sent anything (a program ended, time passed) the only
+        # errors the bus sends about starting services go to the waiters of the activations that have just failed, one per message
+        if op[0] in ("svcexit", "actsleep", "advance"):
+            for conn, ls in per.items():
+                for l in ls:
+                    en = hexname(fld(l, "err")) or ""
+                    if fld(l, "t") == "3" and hexname(fld(l, "sender")) == BUS and (".Spawn." in en or en.endswith(".TimedOut")):
+                        keys = [kk for kk in want if kk[0] == conn and kk[1] == fld(l, "rs")]
+                        if not keys:
+                            bad.append((None, "step %d: connection %d received %s for serial %s although none of its messages was waiting for an activation that "
+                                        "failed in this step (a second error for a start that had already been reported?)" % (i, conn, en.rsplit(".", 1)[-1], fld(l, "rs"))))
         # ---- bookkeeping
         if new_wait is not None:
             n, rec = new_wait
